@@ -12,6 +12,7 @@ def strip_refs(s):
 
 
 class C13(Prop):
+    named_errors = set()     # the statement names no error kind: errors agree by class
     pid = "C13"
     title = "version information is reported completely and unaltered"
     thm_modules = ["PeliteModel.Thm.C13", "PeliteModel.Thm.C13Queries", "PeliteModel.Thm.ImageLayout"]
